@@ -59,7 +59,7 @@ theorem overlapHyps_of_clauses (s : SchemaD) (fx : Fixes) (hfx : HeadVars fx) (h
     (h .uniqueFragmentNames (by decide) (by decide)) (h .noFragmentCycles (by decide) (by decide))
     (h .scalarLeafs (by decide) (by decide)) (h .fragmentsOnCompositeTypes (by decide) (by decide))
 
-/-- **accepted ⇒ valid by all 26 clauses** (every rule visitor silent ⇒ the clause of every rule holds) -/
+/-- **accepted ⇒ valid by all 26 clauses** (every rule visitor silent ⇒ the clause of every rule holds) [ALONE-RUN statement: every rule visitor is run in a chain of its own, `Silent` / `SilentM` count RECORDED ERRORS only (a run that raised is not excluded); the statement about the chain `validate_ast` runs, exception flag included, is in `Props/C06_chain.lean`: `chainM_accepted_spec_valid`; this file is about the UN-memoised overlap search, which /repo no longer runs.] -/
 theorem accepted_spec_valid_all (s : SchemaD) (fx : Fixes) (hfx : HeadVars fx) (hs : SchemaOutputs s) (d : Doc)
     (hd : DocOk s d) (h : ∀ r ∈ Rule.all, Silent s fx r d) : ∀ r ∈ Rule.all, SpecAll r s fx d := by
   have hnd : (Spec.fragNames d).Nodup := (rule_unique_fragment_names_iff s fx d).mp (h _ (by decide))
@@ -72,7 +72,8 @@ theorem accepted_spec_valid_all (s : SchemaD) (fx : Fixes) (hfx : HeadVars fx) (
     exact (rule_overlapping_fields_can_be_merged_iff_partial s fx hfx.2.2.2 d hov.1 hov.2.1 hov.2.2).mp (h _ hr)
   · exact h25 r hr ho
 
-/-- **verdict_iff for the whole chain of 26 rules**: on a schema whose fields have output types and a document that
+/-- **verdict_iff for the 26 rules** (despite its name NOT about `verdict`: the conjunction of the 26 ALONE runs; the chain:
+    `Props/C06_chain.lean: verdict_iff_alone` reduces `verdict ⟨s, fx, Rule.all⟩ d = some true` to it, exception flag included): on a schema whose fields have output types and a document that
     passes the driver's static checks, every rule visitor (run alone) is silent iff the clause of every rule holds -/
 theorem verdict_iff_all (s : SchemaD) (fx : Fixes) (hfx : HeadVars fx) (hs : SchemaOutputs s) (d : Doc) (hd : DocOk s d) :
     (∀ r ∈ Rule.all, Silent s fx r d) ↔ (∀ r ∈ Rule.all, SpecAll r s fx d) :=
@@ -83,7 +84,10 @@ theorem verdict_iff_all_head (s : SchemaD) (hs : SchemaOutputs s) (d : Doc) (hd 
     (∀ r ∈ Rule.all, Silent s Fixes.all r d) ↔ (∀ r ∈ Rule.all, SpecAll r s Fixes.all d) :=
   verdict_iff_all s Fixes.all headVars_all hs d hd
 
-/-- **attribution** over the 26 rules (on the rules run alone; see `attribution_partial`): if the clause of exactly one
+/-- **attribution** over the 26 rules (on the rules run ALONE; see `attribution_partial`). NOTE: with `r = noFragmentCycles` the
+    hypotheses are contradictory - `DocOk` contains the rank check `rankOkB`, which only acyclic documents pass, and `hothers`
+    gives unique fragment names - so this theorem says nothing about fragment cycles; `attribution_all_memo` (`DocOkM`, no
+    ranks) does: if the clause of exactly one
     rule `r` fails, `r` reports and no other rule does.
     ONE PAIR is excepted, visibly, in the conclusion: when the violated rule is UniqueFragmentNames, nothing is said
     about NoFragmentCycles - with two definitions of a fragment name the visitor records the spreads of one of them and
